@@ -56,7 +56,7 @@ IReset == /\ Line.k = "reset"
           /\ l' = l + 1
 
 Verdict(why) == [case |-> run, chart |-> 0, exec |-> "mt_invoke", line |-> l, property |-> "C11", why |-> why,
-                 action |-> Line.cb, got |-> Line,
+                 action |-> IF "cb" \in DOMAIN Line THEN Line.cb ELSE "end", got |-> Line,
                  expected |-> [inP1 |-> inP1, running |-> running, cancelling |-> cancelling, ownDone |-> ownDone,
                                doneSeen |-> doneSeen, csent |-> csent, opts |-> opts], extra |-> <<>>]
 
